@@ -294,6 +294,30 @@ func (r *Runner) execMacro(a Action) {
 			return
 		}
 		ai := others[a.N%len(others)]
+		fresh := -1
+		for i := range r.ids {
+			if r.P.Suffrage[i] == 2 && r.neverStarted(i) {
+				fresh = i
+			}
+		}
+		if len(a.Set) > 0 && a.Set[0] == 1 && fresh >= 0 {
+			// the other way round: the leader reaches no voter at all; while VerifyLeader
+			// waits, a fresh server is added and answers at once - it cannot vouch for
+			// a call made before it joined
+			for _, o := range others {
+				r.exec(Action{Op: "isolate", Srv: o})
+			}
+			w.Advance(time.Duration(a.Arg%3)*time.Millisecond, r.sample)
+			r.doVerify(L)
+			w.Advance(time.Duration(1+a.Dt%2)*time.Millisecond, r.sample)
+			r.start(fresh)
+			r.doMembership(L, []string{"addvoter", "addnonvoter"}[a.N%2], fresh, 0)
+			r.feat("fresh-server-joins")
+			r.feat("server-added-while-verifyleader-waits")
+			w.Advance(40*time.Millisecond, r.sample)
+			r.exec(Action{Op: "heal"})
+			return
+		}
 		for _, o := range others {
 			if o != ai {
 				r.exec(Action{Op: "isolate", Srv: o})
